@@ -3,12 +3,16 @@ package props
 import (
 	"fmt"
 
+	jd "github.com/josephburnett/jd/v2"
+
 	"verifharness/gen"
 	"verifharness/mon"
 	"verifharness/ref"
 )
 
-var c05Opts = []OptSet{OptNone, OptSetO, OptMset, OptKeys1, OptMerge, OptSetMerge, OptMsMerge, OptPrecision(0.1), OptPrecision(1.5), OptPrecision(1e-9)}
+var OptMergePrec = OptSet{Name: "MERGE+Precision(0.1)", Opts: func() []jd.Option { return []jd.Option{jd.MERGE, jd.Precision(0.1)} }, Reading: ref.List, Merge: true, Eps: 0.1, HasEps: true}
+
+var c05Opts = []OptSet{OptNone, OptSetO, OptMset, OptKeys1, OptMerge, OptSetMerge, OptMsMerge, OptPrecision(0.1), OptPrecision(1.5), OptPrecision(1e-9), OptMergePrec}
 
 // withinEpsInArray is the classifier of F9 (array part): at some pair of
 // arrays met while walking a and b in parallel, two numbers differ but are
@@ -212,6 +216,10 @@ func init() {
 			x := gen.Pick(c.R, []float64{0, 1, 2.5, -3, 100})
 			delta := gen.Pick(c.R, []float64{0, eps / 2, eps * 0.999, eps * 1.5, eps * 2, -eps / 2, -eps * 1.5})
 			y := x + delta
+			if (i/12)%3 == 2 {
+				x, y = -eps*gen.Pick(c.R, []float64{0.9, 0.6, 0.45}), eps*gen.Pick(c.R, []float64{0.9, 0.6, 0.45}) // straddling zero
+				c.Feature("precision_opposite_signs")
+			}
 			var a, b any
 			switch (i / 3) % 4 {
 			case 0:
